@@ -10,10 +10,21 @@ def check(ctx):
         "sent_spans += (1 | batch_size) or spans_per_batch /= c (c > 1 constant), the division only on the batch_size > 1 "
         "edge; R3 the converted window is spans[sent .. sent + batch_size] with batch_size = min(spans_per_batch, len - "
         "sent), the post-send increment is that same batch_size, and the skip increment is the constant 1 on the "
-        "batch_size <= 1, over-limit edge; R4 the loop leaves only on !(sent_spans < len) or through `?`.")
+        "batch_size <= 1, over-limit edge; R4 the loop leaves only on !(sent_spans < len) or through `?`; R5 report() hands try_report "
+        "the batch it received and neither applies a selecting operation (retain / dedup / truncate / drain / filter / take) to it.")
     ctx.not_decided = ("termination and the exactly-once / in-order claim as arithmetic facts over all size distributions "
                        "(R2-R3 are the per-iteration conditions a ranking argument needs; the argument itself is not "
                        "mechanised); that batch_size >= 1 whenever the loop condition holds.")
     facts = ctx.facts("E")
     jaeger.check_all(ctx, facts)
     jaeger.rule_fresh_buffer(ctx, facts, "R1")
+    # R5: the batch report() was given reaches the splitting loop whole (a filter on the batch -- de-duplication by span id, a cap on
+    # the number of records -- drops spans that fit in a datagram)
+    from .. import reporters
+    from ..core import Prov
+    rep = [g for p, g in facts.fns.items() if g.crate == "fastrace_jaeger" and p.endswith("Reporter>::report")]
+    tr = facts.fn("fastrace_jaeger::JaegerReporter::try_report")
+    if rep and tr is not None:
+        reporters.whole_batch(ctx, Prov(facts), "R5", rep[0], tr, "JaegerReporter")
+    else:
+        ctx.fail("R5", "fastrace_jaeger::JaegerReporter", "-", "report() and try_report() exist", "anchor lost", extra="whole-anchor")
